@@ -359,6 +359,51 @@ func c03r5(c *Ctx) {
 		reach := p.CG().Reach([]*ssa.Function{del}, func(f *ssa.Function) bool { return funcPkgPath(f) != istioMod+"/"+pkgXds })
 		eff := effectsOf(reach)
 		_, writes := eff.Writes[rn]
+		// ... and only ever ADDS to them: for these types the record is the subscription itself (pushes are computed as
+		// updated ∩ recorded), and only the client's own unsubscribe (deltaWatchedResources) may take a name out. A
+		// generator that prunes names it reported as removed / not found ends the subscription behind the client's back:
+		// when the name comes (back) into existence, nothing is sent.
+		for f := range reach {
+			for _, st := range storesTo(f, rn) {
+				var shrink *ssa.Call
+				seen := map[ssa.Value]bool{}
+				var walk func(v ssa.Value, d int)
+				walk = func(v ssa.Value, d int) {
+					if v == nil || seen[v] || d > 8 || shrink != nil {
+						return
+					}
+					seen[v] = true
+					switch x := v.(type) {
+					case *ssa.Call:
+						if o := calleeObj(x); o != nil {
+							switch o.Name() {
+							case "Difference", "DifferenceInPlace", "Delete", "DeleteAll", "DeleteAllSet", "Intersection", "IntersectInPlace", "Diff":
+								shrink = x
+								return
+							}
+						}
+						for _, a := range x.Call.Args {
+							walk(a, d+1)
+						}
+					case *ssa.Phi:
+						for _, e := range x.Edges {
+							walk(e, d+1)
+						}
+					case *ssa.ChangeType:
+						walk(x.X, d+1)
+					case *ssa.Extract:
+						walk(x.Tuple, d+1)
+					}
+				}
+				walk(st.Val, 0)
+				pos := st.Pos()
+				if shrink != nil {
+					pos = shrink.Pos()
+				}
+				c.Check("generator-managed type "+short+": the recorded names only grow in "+stableFnName(f), pos, shrink == nil,
+					"the generator stores a ResourceNames set from which names were taken out (Difference/Delete/Intersection). For generator-managed types the record IS the subscription (pushes are updated ∩ recorded): a name the client still subscribes to but that currently resolves to nothing is dropped, and when the workload appears again under that name the long-lived delta client is not told, while a fresh (or state-of-the-world) client would hold it")
+			}
+		}
 		c.Check("generator-managed type "+short+": "+g.Obj().Name()+" records the names it sent", del.Pos(), writes,
 			"pushDeltaXds/sendDelta/shouldRespondDelta do not maintain WatchedResource.ResourceNames for "+u+" (requiresResourceNamesModification), and its generator "+g.Obj().Name()+" never writes them either: the server's record of what the client holds stays empty, so removed = held - current is always empty (deleted resources are never removed after a reconnect or forced push)")
 	}
